@@ -70,6 +70,12 @@ pub struct RtSc {
     /// serialised a second time (the second and later uses of one container object)
     #[serde(default)]
     pub then: Vec<crate::model::Op>,
+    /// container calls made after the graph was built and before anything else: (kind, key) with
+    /// kind 0 = remove the member and insert the same node again, 1 = insert a member a second
+    /// time (refused), 2 = remove a key that is not there, 3 = kind 0 twice, 4 = replace an
+    /// edgeless member by a NEW node object under the same key, which then gets an edge
+    #[serde(default)]
+    pub churn: Vec<(u8, usize)>,
 }
 
 pub struct RoundTrip;
@@ -123,7 +129,42 @@ fn rt_run<F: Flavour>(sc: &RtSc, stats: &mut Stats) -> Option<Violation> {
 fn rt_inner<F: Flavour>(sc: &RtSc, stats: &mut Stats) -> Option<Violation> {
     crate::keys::set_style(crate::keys::style_from(sc.ser_hash));
     hashseam::set_seed(sc.ser_hash);
-    let (nodes, g) = build::<F>(&sc.prios, &sc.edges, &sc.insert_order);
+    let (mut nodes, mut g) = build::<F>(&sc.prios, &sc.edges, &sc.insert_order);
+    for (kind, k) in &sc.churn {
+        let k = *k;
+        if k >= nodes.len() {
+            continue;
+        }
+        stats.inc("container_calls_before_serialising");
+        match kind % 5 {
+            0 | 3 => {
+                for _ in 0..(if kind % 5 == 3 { 2 } else { 1 }) {
+                    if let Some(n) = F::g_remove(&mut g, k) {
+                        F::g_insert(&mut g, n);
+                    }
+                }
+            }
+            1 => {
+                let _ = F::g_insert(&mut g, nodes[k].clone());
+            }
+            2 => {
+                let _ = F::g_remove(&mut g, gen::NO_SUCH_KEY);
+            }
+            _ => {
+                if F::out_degree(&nodes[k]) + F::in_degree(&nodes[k]) == 0 && F::g_contains(&g, k) {
+                    let _ = F::g_remove(&mut g, k);
+                    let fresh = F::node_new(k, NVal::new(sc.prios[k] + 1, 3000 + k as u64));
+                    F::g_insert(&mut g, fresh.clone());
+                    let other = (k + 1) % nodes.len();
+                    // (the node that was replaced is about to go: never a neighbour)
+                    let target = if other == k { fresh.clone() } else { nodes[other].clone() };
+                    F::connect(&fresh, &target, EVal::new(30_000 + k as u64));
+                    nodes[k] = fresh;
+                    stats.inc("member_replaced_by_a_new_node_under_its_key");
+                }
+            }
+        }
+    }
     let w = World::<F> { nodes, graph: None };
     if !sc.after.is_empty() {
         for op in &sc.after {
@@ -529,7 +570,14 @@ impl Engine for RoundTrip {
                 }
             }
         }
+        let mut churn = Vec::new();
+        if rng.chance(1, 5) {
+            for _ in 0..rng.range(1, 3) {
+                churn.push((rng.below(5) as u8, rng.below(prios.len().max(1))));
+            }
+        }
         RtSc {
+            churn,
             flavour,
             prios,
             edges,
@@ -589,8 +637,13 @@ impl Engine for RoundTrip {
             c.then = a;
             out.push(c);
         }
+        for a in gen::shrink_vec(&sc.churn, 10) {
+            let mut c = sc.clone();
+            c.churn = a;
+            out.push(c);
+        }
         for k in (0..sc.prios.len()).rev() {
-            if sc.prios.len() > 1 {
+            if sc.prios.len() > 1 && !sc.churn.iter().any(|(_, x)| *x >= k) {
                 if let (Some(edges), Some(after), Some(then)) = (gen::remap_edges(&sc.edges, k), gen::remap_ops(&sc.after, k), gen::remap_ops(&sc.then, k)) {
                     let mut c = sc.clone();
                     c.prios.remove(k);
@@ -617,7 +670,7 @@ impl Engine for RoundTrip {
 
     fn size(&self, sc: &RtSc) -> usize {
         let plan = |p: &StreamPlan| p.chunks.len() + p.interrupt_every.is_some() as usize + p.is_hard() as usize * 2;
-        sc.edges.len() * 4 + sc.prios.len() * 2 + sc.via_stream as usize * 3 + plan(&sc.wplan) + plan(&sc.rplan) + sc.after.len() * 4 + sc.then.len() * 4
+        sc.edges.len() * 4 + sc.prios.len() * 2 + sc.via_stream as usize * 3 + plan(&sc.wplan) + plan(&sc.rplan) + sc.after.len() * 4 + sc.then.len() * 4 + sc.churn.len() * 3
     }
 }
 
